@@ -410,6 +410,14 @@ func (w *world) doOp(o cop) string {
 		w.installCfg(o.Cfg)
 		vsignal.Deliver("harness.sighup", syscall.SIGHUP)
 		return "sent"
+	case "await-cfg":
+		// the client waits until the reloaded configuration is in effect (as an operator does who
+		// watches the log before trying again)
+		cv := w.cfgView(o.Cfg)
+		mc.Ext("harness.await-cfg", fmt.Sprintf("await-cfg-%d", o.Cfg), func() bool {
+			return w.st != nil && w.st.dir.BaseDir == cv.dir && w.st.dir.Default == cv.def
+		}, func() {})
+		return "in-effect"
 	}
 	panic("unknown op " + o.Kind)
 }
